@@ -46,8 +46,9 @@ def explore(ctx):
     if not ctx.quick:
         graphs += gen.library_graphs(3, ctx.rng, 6000)
     dist = {"files": 0, "registered": 0}
-    for names, edges, kinds in graphs:
+    for gi, (names, edges, kinds) in enumerate(graphs):
         for how in ("files", "registered"):
+            gen.EDGE_SALT = gi
             if how == "registered" and any(k in ("not-utf8",) for k in kinds):
                 continue
             dist[how] += 1
@@ -76,6 +77,7 @@ def explore(ctx):
     prog_cases = []
     for names, edges, kinds in ctx.rng.sample(graphs, min(len(graphs), 40 if ctx.quick else 600)):
         lines = []
+        gen.EDGE_SALT = ctx.rng.randrange(8)
         for k, n in enumerate(names):
             imports = [names[b] for a, b in edges if a == k]
             if kinds[k] == "missing":
@@ -137,7 +139,7 @@ def explore(ctx):
         "rule": "every directed graph (self loops included) on 1 and 2 libraries%s x every assignment of node kinds (healthy, "
                 "missing, faulting body, fault in the middle of the body, wrong library name in the file, syntactically broken, not UTF-8, "
                 "the library second in its file after another library, after other top-level forms, defined twice in its file), libraries supplied "
-                "as files in the working directory and as registered sources, x histories of 1, 2 and 3 import attempts on "
+                "as files in the working directory and as registered sources, every edge written as one of the import-set shapes (the library alone; only / except / rename with an empty identifier list; prefix; only with an identifier), x histories of 1, 2 and 3 import attempts on "
                 "one interpreter%s; observable: outcome kind and location per attempt, compared model vs implementation; and "
                 "the outcome of every attempt is compared with the outcome of the same import on a fresh interpreter "
                 "(history independence); plus program files with the libraries next to them and decoy libraries of the same names "
